@@ -219,6 +219,7 @@ class Server(object):
                     raise
                 except UnicodeDecodeError:
                     bad_arguments.send(self.io)
+                    raise
                 except Exception:
                     unhandled_error.send(self.io)
                     raise
@@ -268,7 +269,11 @@ class Server(object):
             bad_arguments.send(self.io)
             return
 
-        ehlo_as = ehlo_as.decode('utf-8')
+        try:
+            ehlo_as = ehlo_as.decode('utf-8')
+        except UnicodeDecodeError:
+            bad_arguments.send(self.io)
+            return
         reply = Reply('250', 'Hello '+ehlo_as)
         reply.enhanced_status_code = False
         self._call_custom_handler('EHLO', reply, ehlo_as)
@@ -292,7 +297,11 @@ class Server(object):
             bad_arguments.send(self.io)
             return
 
-        ehlo_as = ehlo_as.decode('utf-8')
+        try:
+            ehlo_as = ehlo_as.decode('utf-8')
+        except UnicodeDecodeError:
+            bad_arguments.send(self.io)
+            return
         reply = Reply('250', 'Hello '+ehlo_as)
         reply.enhanced_status_code = False
         self._call_custom_handler('HELO', reply, ehlo_as)
@@ -377,7 +386,11 @@ class Server(object):
         if end == -1:
             bad_arguments.send(self.io)
             return
-        address = arg[start:end].decode('utf-8')
+        try:
+            address = arg[start:end].decode('utf-8')
+        except UnicodeDecodeError:
+            bad_arguments.send(self.io)
+            return
 
         if not self.ehlo_as:
             bad_sequence.send(self.io)
@@ -423,7 +436,11 @@ class Server(object):
         if end == -1:
             bad_arguments.send(self.io)
             return
-        address = arg[start:end].decode('utf-8')
+        try:
+            address = arg[start:end].decode('utf-8')
+        except UnicodeDecodeError:
+            bad_arguments.send(self.io)
+            return
 
         if not self.have_mailfrom:
             bad_sequence.send(self.io)
